@@ -28,10 +28,19 @@ type Interp struct {
 	Last Outcome
 	Log  io.Writer // optional: receives one diagnostic line (with the ABCI log) per TX / CHECK
 
-	gen   script.Genesis
-	ph    phase
-	seenN map[int]bool
+	Backend   string       // database backend: "" / memdb | goleveldb
+	LastQuery QueryOutcome // outcome of the last QUERY line
+	LastKind  string       // its kind
+	LastX     string       // ok | panic: result of the last EXPORTIMPORT; ok | bad: of the last CRASH
+
+	gen     script.Genesis
+	ph      phase
+	seenN   map[int]bool
+	checked bool // a CHECK ran since the last Commit / restart: the check state differs from the committed state
 }
+
+// Idle reports whether the script is between blocks (after INIT / COMMIT / CRASH).
+func (ip *Interp) Idle() bool { return ip.ph == phIdle }
 
 // Stopped reports whether the script ended with a BeginBlock / EndBlock panic.
 func (ip *Interp) Stopped() bool { return ip.ph == phStopped }
@@ -76,7 +85,7 @@ func (ip *Interp) Exec(line string) ([]string, error) {
 		if err := ip.gen.Complete(); err != nil {
 			return nil, err
 		}
-		r, err := New(&ip.gen, ip.Home)
+		r, err := NewOn(&ip.gen, ip.Home, ip.Backend)
 		if err != nil {
 			return nil, err
 		}
@@ -115,6 +124,9 @@ func (ip *Interp) Exec(line string) ([]string, error) {
 		o, err := run(t)
 		if err != nil {
 			return nil, err
+		}
+		if toks[0] == "CHECK" {
+			ip.checked = true
 		}
 		ip.Last = o
 		if ip.Log != nil {
@@ -159,10 +171,73 @@ func (ip *Interp) Exec(line string) ([]string, error) {
 			return nil, err
 		}
 		ip.R.Commit()
-		ip.ph = phIdle
+		ip.ph, ip.checked = phIdle, false
 		out := append([]string{"K ok"}, ip.R.Digest()...)
 		// registered invariants of every module, evaluated on the committed state (soft lines, only when broken)
 		return append(out, ip.R.BrokenInvariants()...), nil
+	case "QUERY":
+		if err := want(phIdle, -1); err != nil {
+			return nil, err
+		}
+		if len(toks) < 3 {
+			return nil, fmt.Errorf("QUERY: want number and kind")
+		}
+		n, err := strconv.Atoi(toks[1])
+		if err != nil {
+			return nil, fmt.Errorf("QUERY: bad number %q", toks[1])
+		}
+		if err := ip.number(n); err != nil {
+			return nil, err
+		}
+		o, err := ip.R.Query(toks[2], toks[3:])
+		if err != nil {
+			return nil, err
+		}
+		ip.LastQuery, ip.LastKind = o, toks[2]
+		if ip.Log != nil {
+			fmt.Fprintf(ip.Log, "QUERY %d %s %d %s :: %s\n", n, o.Class, o.Code, strings.ReplaceAll(o.Log, "\n", " "), strings.Join(toks[2:], " "))
+		}
+		return o.TraceLines(n), nil
+	case "DIGEST":
+		if err := want(phIdle, 1); err != nil {
+			return nil, err
+		}
+		if ip.checked {
+			return nil, fmt.Errorf("DIGEST not allowed after CHECK in the same block gap (the check state carries ante effects)")
+		}
+		return ip.R.Digest(), nil
+	case "EXPORTIMPORT":
+		if err := want(phIdle, 1); err != nil {
+			return nil, err
+		}
+		if ip.checked {
+			return nil, fmt.Errorf("EXPORTIMPORT not allowed after CHECK in the same block gap (the export reads the check state)")
+		}
+		lines, ok, err := ip.R.ExportImport()
+		if err != nil {
+			return nil, err
+		}
+		if ip.LastX = "panic"; ok {
+			ip.LastX = "ok"
+		}
+		return lines, nil
+	case "CRASH":
+		if ip.ph != phIdle && ip.ph != phBlock && ip.ph != phEnded {
+			return nil, fmt.Errorf("CRASH not allowed here")
+		}
+		if len(toks) != 1 {
+			return nil, fmt.Errorf("CRASH: want 1 token")
+		}
+		ok, err := ip.R.Crash()
+		if err != nil {
+			return nil, err
+		}
+		ip.ph, ip.checked = phIdle, false
+		head := "Z bad"
+		if ip.LastX = "bad"; ok {
+			head, ip.LastX = fmt.Sprintf("Z ok %d", ip.R.Blocks), "ok"
+		}
+		return append([]string{head}, ip.R.Digest()...), nil
 	}
 	return nil, fmt.Errorf("unknown script line %q", toks[0])
 }
